@@ -50,8 +50,16 @@ func skipVsRead(c *fw.Ctx, idx int, n univ.SNode) {
 	encCap := int64(0)
 	if c.Tier != "thorough" {
 		encCap = 256
+	} else if n.Depth >= 3 {
+		encCap = 256 // block splittings multiply with nesting (see C03); depth <= 1 stays uncapped
+	} else if n.Depth == 2 {
+		encCap = 20000
 	}
 	for _, d := range datums3(n) {
+		if c.Expired() {
+			c.NotExhaustive("budget ran out inside " + n.Chain)
+			return
+		}
 		rec := ref.DRecord(d)
 		explore.Run(-1, encCap, func(ch *explore.Chooser) {
 			e := &ref.Enc{Ch: ch}
@@ -414,7 +422,7 @@ func init() {
 		ID:    "C04",
 		Level: "exploration",
 		Rule: func(tier string) string {
-			return "(1) codec level: for every schema node of the C03 universe, every datum and every legal serialisation (first 256 per datum in quick) followed by a 3-byte tail, ReadBuf.Len() after Codec.Read, after reading through a record codec whose struct lacks the field (skip path), and after Codec.Skip must all equal the reference decoder's consumption; (2) file level: writer schemas record{a:X, b:Y, z:long} for every ordered pair (X,Y) of an 18-schema pool (primitives, fixed, arrays/maps incl. nested and nullable items, unions null-first/null-second/multi-branch, records, arrays of records; and, skip-only, a 130-branch union with every branch selected so that two-byte selectors occur) and the nested form record{r:record{a:X,b:Y}, z}; 3-record reference-written files in every encoding variant with <=2 writer-side deviations, rotating over block partitions and codecs; every projection of the full target struct: every subset of fields deleted × every permutation of the rest × {nothing, or one added field of kind int64/string/*int64/[]string/map[string]int64/struct}; oracle: remaining fields equal gv.Expect, added fields zero, same record count, nil error (the trailing sync check makes a mis-sized skip visible); non-trivial = a distinct (file, projection) or (encoding) that reached the comparison"
+			return "(1) codec level: for every schema node of the C03 universe, every datum and every legal serialisation (first 256 per datum in quick; thorough: all at depth<=1, first 20000 at depth 2, first 256 at depth 3) followed by a 3-byte tail, ReadBuf.Len() after Codec.Read, after reading through a record codec whose struct lacks the field (skip path), and after Codec.Skip must all equal the reference decoder's consumption; (2) file level: writer schemas record{a:X, b:Y, z:long} for every ordered pair (X,Y) of an 18-schema pool (primitives, fixed, arrays/maps incl. nested and nullable items, unions null-first/null-second/multi-branch, records, arrays of records; and, skip-only, a 130-branch union with every branch selected so that two-byte selectors occur) and the nested form record{r:record{a:X,b:Y}, z}; 3-record reference-written files in every encoding variant with <=2 writer-side deviations, rotating over block partitions and codecs; every projection of the full target struct: every subset of fields deleted × every permutation of the rest × {nothing, or one added field of kind int64/string/*int64/[]string/map[string]int64/struct}; oracle: remaining fields equal gv.Expect, added fields zero, same record count, nil error (the trailing sync check makes a mis-sized skip visible); non-trivial = a distinct (file, projection) or (encoding) that reached the comparison"
 		},
 		Assumptions: []string{
 			"the expected value of every remaining field is computed by gv.Expect from the datum (stronger than, and implying, the differential 'same as the full decode')",
